@@ -67,14 +67,16 @@ def harnesses(tier, seed, active_kf=()):
     n_mod = len(mapping)
     thorough = tier == "thorough"
     out = []
-    forms = 17 if thorough else 10
-    order = (0, 1, 2, 3, 4, 12, 13, 14, 15, 16, 17, 5, 9, 6, 7, 8, 10, 11)     # quick tier takes the first 11 of these forms
+    forms = 17 if thorough else 8
+    order = (0, 1, 2, 3, 4, 12, 13, 14, 15, 16, 17, 5, 9, 6, 7, 8, 10, 11)     # quick tier takes the first 9 of these forms
     joins = (0,) if "F19" in active_kf else (0, 1, 2)
     for lay in range(5):
         for join in joins:
             if (join == 1 and lay == 3) or (join == 2 and lay in (3, 4)):
                 continue
             for mi in range(n_mod):      # one harness per v1 module (parallelism)
+                if not thorough and lay != 0 and mi not in (0, n_mod // 2, n_mod - 1):
+                    continue             # quick tier: multi-line layouts on three of the modules only
                 params = "ns: int, al: bool, fa: int, fb: int, nl: bool"
                 pre = ["0 <= ns <= 4", "0 <= fa <= %d" % forms, "0 <= fb <= %d" % forms]
                 conc = ["ORDER = %r" % (order,), "mi = %d" % mi, "ns = conc(ns, 4)", "al = cb(al)", "fa = conc(fa, %d)" % forms,
